@@ -834,7 +834,7 @@ spif_str_trim(spif_str_t self)
     }
     start = self->s;
     end = self->s + self->len - 1;
-    for (; isspace((spif_uchar_t) (*start)) && (start < end); start++);
+    for (; isspace((spif_uchar_t) (*start)) && (start <= end); start++);
     for (; isspace((spif_uchar_t) (*end)) && (start < end); end--);
     if (start > end) {
         return spif_str_done(self);
